@@ -118,7 +118,11 @@ pub fn run_session(calls: &[&str]) -> String {
                     out.push("TIMEOUT".into());
                 }
             }
-            b'I' => rt.interrupt(),
+            b'I' => {
+                // the interrupt ends a pending INPUT / INKEY$ wait: a later reply call is skipped on both sides
+                rt.interrupt();
+                waiting_input = false;
+            }
             b'G' => held.push(rt.get_listing()),
             b'g' => {
                 let _ = rt.get_listing();
@@ -138,7 +142,10 @@ pub fn run_session(calls: &[&str]) -> String {
             b'L' => {
                 let parts: Vec<&str> = call[2..].split(':').collect();
                 match load_file(&str_of_hex(parts[0])) {
-                    Ok(listing) => rt.set_listing(listing, parts[1] == "1"),
+                    Ok(listing) => {
+                        rt.set_listing(listing, parts[1] == "1");
+                        waiting_input = false;
+                    }
                     Err(e) => out.push(format!("LE:{}", error_code(&e))),
                 }
             }
